@@ -14,6 +14,8 @@ from symx.common import is_sym
 from symx.env import Content
 
 QUERY_KINDS = ('is_file', 'is_dir', 'exists', 'list_dir', 'walk', 'get_size', 'read_m', 'read_h')
+# further spellings of the same operations (other public wrappers): bottom-up walk, read_text, declare_read
+EXTRA_KINDS = ('walk_bu', 'read_t', 'declare')
 BF_MODES = ('ok', 'raise_before', 'raise_after', 'no_create', 'nonjson')
 
 
@@ -73,7 +75,20 @@ def _fc(side, name):
 
 def do_query(b, side, kind, path):
     try:
-        if kind == 'read_m' or kind == 'read_h':
+        if kind == 'read_t':
+            h = b.read_text(path, _fc(side, 'METADATA'))
+            try:
+                data = h.read()
+            finally:
+                h.close()
+            if isinstance(data, str):
+                data = data.encode('latin-1')
+            r = side.world.cid_of(data, side.fs)
+        elif kind == 'declare':
+            r = b.declare_read(path, _fc(side, 'HASH'))
+        elif kind == 'walk_bu':
+            r = sorted([[d, sorted(sd), sorted(sf)] for d, sd, sf in b.walk(path, False)])
+        elif kind == 'read_m' or kind == 'read_h':
             cmp = _fc(side, 'METADATA' if kind == 'read_m' else 'HASH')
             h = b.read_binary(path, cmp)
             try:
